@@ -515,3 +515,52 @@ def tainted_locals(fn, seeds):
                         taint.add(d.group(0))
                         changed = True
     return taint
+
+
+def sccs(nodes, succ):
+    """Tarjan (iterative). nodes: iterable; succ: node -> iterable of nodes. returns list of lists (size>1 or self-loop)"""
+    index = {}
+    low = {}
+    onstack = set()
+    stack = []
+    out = []
+    counter = [0]
+    for root in nodes:
+        if root in index:
+            continue
+        work = [(root, iter(succ(root)))]
+        index[root] = low[root] = counter[0]
+        counter[0] += 1
+        stack.append(root)
+        onstack.add(root)
+        while work:
+            v, it = work[-1]
+            advanced = False
+            for w in it:
+                if w not in index:
+                    index[w] = low[w] = counter[0]
+                    counter[0] += 1
+                    stack.append(w)
+                    onstack.add(w)
+                    work.append((w, iter(succ(w))))
+                    advanced = True
+                    break
+                elif w in onstack:
+                    low[v] = min(low[v], index[w])
+            if advanced:
+                continue
+            work.pop()
+            if work:
+                u = work[-1][0]
+                low[u] = min(low[u], low[v])
+            if low[v] == index[v]:
+                comp = []
+                while True:
+                    w = stack.pop()
+                    onstack.discard(w)
+                    comp.append(w)
+                    if w == v:
+                        break
+                if len(comp) > 1 or v in set(succ(v)):
+                    out.append(comp)
+    return out
